@@ -29,6 +29,12 @@ Theorem C11_scalar_keys_compat ks : Forall (fun k => exists l, k = VTuple l /\ F
 Proof. exact (scalar_keys_compat ks). Qed.
 Print Assumptions C11_scalar_keys_compat.
 
+(* since /repo 9228ab2 _listby tests runs with cmp(key, prev) == 0 (so does the model): the precondition holds for EVERY key list,
+   NaN objects of different identity included; it is kept in the statements so that they also read for an == based grouping *)
+Theorem C11_keys_compat_always ks : eq_cmp_compat ks.
+Proof. exact (eq_cmp_compat_always ks). Qed.
+Print Assumptions C11_keys_compat_always.
+
 (* unlist(listby(keys)) = the original table stably sorted by the keys, at table level.
    S = dictable.sort(keys) of t (C07_dsort_stable: rows at idx, the stable order).  The result has the key columns first, rebuilt
    from one key tuple per row (reps) that compares 0 with that row's own key, then exactly the other columns of S.
